@@ -255,6 +255,57 @@ def run_main(fn, **kw):
         sys.stdout, sys.stderr = so, se
 
 
+class _Item(object):
+    def __init__(self, obj, name):
+        self.obj = obj
+        self.name = name
+
+
+class _Config(object):
+    def __init__(self, **opts):
+        self.opts = opts
+
+    def getoption(self, name, default=None):
+        return self.opts.get(name, default)
+
+
+def check_pytest_tagged(out, desc, mod, modname, exp):
+    from tdda.referencetest import referencepytest
+    items = []
+    for c in desc['classes']:
+        cls = getattr(mod, c['name'])
+        names = sorted(n for n in dir(cls) if n.startswith('test_'))
+        for n in names:
+            inst = cls(n)
+            items.append(_Item(getattr(inst, n), '%s.%s' % (c['name'], n)))
+    cfg = (_Config(**{'--istagged': True}) if exp['mode'] == 'list'
+           else _Config(**{'--tagged': True}))
+    so = sys.stdout
+    sys.stdout = io.StringIO()
+    try:
+        ok, r = call(referencepytest.tagged, cfg, items)
+        printed = sys.stdout.getvalue()
+    finally:
+        sys.stdout = so
+    out.label('pytest-tagged')
+    if not ok:
+        out.violate('never-raises', r.bucket(), 'referencepytest.tagged: '
+                    + r.detail())
+        return
+    kept = sorted(i.name for i in items)
+    if kept != exp['executed']:
+        out.violate('pytest-tagged-selection', exp['mode'],
+                    'referencepytest.tagged kept %r, expected %r'
+                    % (kept, exp['executed']))
+    if exp['mode'] == 'list':
+        named = set(ln.strip() for ln in printed.split('\n') if ln.strip())
+        want = set('%s.%s' % (modname, c) for c in exp['listed'])
+        if named != want:
+            out.violate('pytest-tagged-selection', 'listed',
+                        'referencepytest.tagged listed %r, classes with '
+                        'tagged tests %r' % (sorted(named), sorted(want)))
+
+
 def run(case, ctx):
     from tdda.referencetest import ReferenceTestCase
     out = Outcome()
@@ -350,6 +401,10 @@ def run(case, ctx):
             out.violate('listed-classes', 'set',
                         'argv %r: listed %r, classes with tagged tests %r'
                         % (shown, sorted(named), sorted(want)))
+    # the pytest side of the same promise: referencepytest.tagged() on a
+    # synthetic collection of this module's tests
+    if exp['mode'] in ('tagged', 'list') and not argv['names']:
+        check_pytest_tagged(out, desc, mod, modname, exp)
     if case.get('subprocess'):
         out.label('subprocess-sample')
         env = dict(os.environ, PYTHONPATH=repo_root())
